@@ -496,6 +496,7 @@ type MovieOptions struct {
 	MultiDesc   bool // allow several sample descriptions per track
 	Adversarial int  // probability in percent of the adversarial flavour (default 35)
 	NoShuffle   bool // keep chunk offsets of every track increasing
+	Huge        bool // co64 in every track and a 64-bit mdat header (File.StretchedPieces applies)
 }
 
 // RandomMovie generates a multi-track movie whose tracks cover about the same
@@ -716,6 +717,12 @@ func RandomMovie(r *runner.Rand, o MovieOptions) *File {
 	f.MvhdVersion = byte(r.Intn(2))
 	f.MdatFirst = r.Chance(1, 3)
 	f.LargeMdat = r.Chance(1, 4)
+	if o.Huge {
+		f.LargeMdat = true
+		for _, t := range f.Tracks {
+			t.Co64 = true
+		}
+	}
 	if r.Chance(1, 5) {
 		f.FreeAfterMoov = r.Intn(9)
 	}
